@@ -35,6 +35,7 @@ pub mod c08;
 pub mod c09;
 pub mod c10;
 pub mod c11;
+pub mod c12;
 pub mod c13;
 pub mod c14;
 pub mod c15;
@@ -57,6 +58,7 @@ pub fn run(property: &str, tier: Tier, seed: u64) -> Option<MonOut> {
         "C09" => Some(c09::run(tier, seed)),
         "C10" => Some(c10::run(tier, seed)),
         "C11" => Some(c11::run(tier, seed)),
+        "C12" => Some(c12::run(tier, seed)),
         "C13" => Some(c13::run(tier, seed)),
         "C14" => Some(c14::run(tier, seed)),
         "C15" => Some(c15::run(tier, seed)),
@@ -70,8 +72,11 @@ pub fn run(property: &str, tier: Tier, seed: u64) -> Option<MonOut> {
 }
 
 /// entry point of `verif worker ...` subprocesses (isolated workloads that may abort)
-pub fn worker_main(_args: &[String]) -> i32 {
-    2
+pub fn worker_main(args: &[String]) -> i32 {
+    match args.first().map(|s| s.as_str()) {
+        Some("C12") => c12::worker(&args[1..]),
+        _ => 2,
+    }
 }
 
 /// re-run one recorded case (a replay file written next to a VIOLATION line, or a bare query case)
